@@ -234,3 +234,182 @@ pub proof fn lemma_members(q: Seq<Option<u8>>, i: int, acc: Seq<(String, JsonVal
     }
 }),
 { reveal(tv); reveal(arr); reveal(obj); reveal(pv); reveal(items); reveal(members); }
+
+// ---- completeness: the spellings the parser is PROVED to accept. Everything pv reads, where every number token is an
+// integer in range or a finite double (an out-of-range integer falls back to a double in the code; that path is covered by
+// the soundness clauses only), and the token text is valid UTF-8 (it is ASCII). ----
+pub open spec fn num_simple(p: Seq<Option<u8>>) -> bool {
+    let t = text_of(num_text(p));
+    valid_utf8(num_text(p)) && digit_run(from(p, num_sign(p))) > 0 && (
+        if num_is_double(p) { parse_of::<f64>(t) matches Some(f) && f64_finite(f) }
+        else if num_sign(p) == 0 { parse_of::<u64>(t) is Some } else { parse_of::<i64>(t) is Some })
+}
+#[verifier::opaque]
+pub open spec fn tvs(t: Seq<Option<u8>>) -> bool
+    decreases t.len(), 1int
+{
+    match at(t, 0) {
+        None => false,
+        Some(b) =>
+            if b == 0x74u8 { bytes_at(t, 1, rue()) }
+            else if b == 0x66u8 { bytes_at(t, 1, alse()) }
+            else if b == 0x6eu8 { bytes_at(t, 1, ull()) }
+            else if b == 0x22u8 { match str_dec(t, 1, Seq::empty()) { Some((bytes, k)) => valid_utf8(bytes), None => false } }
+            else if b == 0x2du8 || is_digit(b) { num_simple(t) }
+            else if b == 0x5bu8 { arrs(t) }
+            else if b == 0x7bu8 { objs(t) }
+            else { false },
+    }
+}
+#[verifier::opaque]
+pub open spec fn arrs(t: Seq<Option<u8>>) -> bool
+    decreases t.len(), 0int
+{
+    if t.len() == 0 { false } else {
+        let q = from(t, 1);
+        let w2 = ws_run(q) as int;
+        at(q, w2) == Some(0x5du8) || (w2 <= q.len() && itemss(q, w2))
+    }
+}
+#[verifier::opaque]
+pub open spec fn objs(t: Seq<Option<u8>>) -> bool
+    decreases t.len(), 0int
+{
+    if t.len() == 0 { false } else {
+        let q = from(t, 1);
+        let w2 = ws_run(q) as int;
+        at(q, w2) == Some(0x7du8) || (w2 <= q.len() && memberss(q, w2))
+    }
+}
+#[verifier::opaque]
+pub open spec fn pvs(p: Seq<Option<u8>>) -> bool
+    decreases p.len(), 2int
+{
+    let w = ws_run(p) as int;
+    0 <= w < p.len() && tvs(p.subrange(w, p.len() as int))
+}
+#[verifier::opaque]
+pub open spec fn itemss(q: Seq<Option<u8>>, i: int) -> bool
+    decreases q.len() - i, 3int
+{
+    if i < 0 || i > q.len() { false } else {
+        pvs(from(q, i)) && match pv(from(q, i)) {
+            None => false,
+            Some((v, n)) =>
+                n > 0 && i + n <= q.len() && {
+                    let j = i + n;
+                    let w = ws_run(from(q, j)) as int;
+                    at(q, j + w) == Some(0x5du8) || (at(q, j + w) == Some(0x2cu8) && itemss(q, j + w + 1))
+                },
+        }
+    }
+}
+#[verifier::opaque]
+pub open spec fn memberss(q: Seq<Option<u8>>, i: int) -> bool
+    decreases q.len() - i, 3int
+{
+    if i < 0 || i > q.len() { false } else {
+        pvs(from(q, i)) && match pv(from(q, i)) {
+            Some((JsonValue::String(key), n)) =>
+                n > 0 && i + n <= q.len() && {
+                    let j = i + n;
+                    let w = ws_run(from(q, j)) as int;
+                    at(q, j + w) == Some(0x3au8) && {
+                        let c = j + w + 1;
+                        pvs(from(q, c)) && match pv(from(q, c)) {
+                            None => false,
+                            Some((v, n2)) =>
+                                n2 > 0 && c + n2 <= q.len() && {
+                                    let j2 = c + n2;
+                                    let w3 = ws_run(from(q, j2)) as int;
+                                    at(q, j2 + w3) == Some(0x7du8) || (at(q, j2 + w3) == Some(0x2cu8) && memberss(q, j2 + w3 + 1))
+                                },
+                        }
+                    }
+                },
+            _ => false,
+        }
+    }
+}
+
+pub proof fn lemma_tvs(t: Seq<Option<u8>>)
+    ensures tvs(t) == ({
+    match at(t, 0) {
+        None => false,
+        Some(b) =>
+            if b == 0x74u8 { bytes_at(t, 1, rue()) }
+            else if b == 0x66u8 { bytes_at(t, 1, alse()) }
+            else if b == 0x6eu8 { bytes_at(t, 1, ull()) }
+            else if b == 0x22u8 { match str_dec(t, 1, Seq::empty()) { Some((bytes, k)) => valid_utf8(bytes), None => false } }
+            else if b == 0x2du8 || is_digit(b) { num_simple(t) }
+            else if b == 0x5bu8 { arrs(t) }
+            else if b == 0x7bu8 { objs(t) }
+            else { false },
+    }
+}),
+{ reveal(tvs); reveal(arrs); reveal(objs); reveal(pvs); reveal(itemss); reveal(memberss); }
+pub proof fn lemma_arrs(t: Seq<Option<u8>>)
+    ensures arrs(t) == ({
+    if t.len() == 0 { false } else {
+        let q = from(t, 1);
+        let w2 = ws_run(q) as int;
+        at(q, w2) == Some(0x5du8) || (w2 <= q.len() && itemss(q, w2))
+    }
+}),
+{ reveal(tvs); reveal(arrs); reveal(objs); reveal(pvs); reveal(itemss); reveal(memberss); }
+pub proof fn lemma_objs(t: Seq<Option<u8>>)
+    ensures objs(t) == ({
+    if t.len() == 0 { false } else {
+        let q = from(t, 1);
+        let w2 = ws_run(q) as int;
+        at(q, w2) == Some(0x7du8) || (w2 <= q.len() && memberss(q, w2))
+    }
+}),
+{ reveal(tvs); reveal(arrs); reveal(objs); reveal(pvs); reveal(itemss); reveal(memberss); }
+pub proof fn lemma_pvs(p: Seq<Option<u8>>)
+    ensures pvs(p) == ({
+    let w = ws_run(p) as int;
+    0 <= w < p.len() && tvs(p.subrange(w, p.len() as int))
+}),
+{ reveal(tvs); reveal(arrs); reveal(objs); reveal(pvs); reveal(itemss); reveal(memberss); }
+pub proof fn lemma_itemss(q: Seq<Option<u8>>, i: int)
+    ensures itemss(q, i) == ({
+    if i < 0 || i > q.len() { false } else {
+        pvs(from(q, i)) && match pv(from(q, i)) {
+            None => false,
+            Some((v, n)) =>
+                n > 0 && i + n <= q.len() && {
+                    let j = i + n;
+                    let w = ws_run(from(q, j)) as int;
+                    at(q, j + w) == Some(0x5du8) || (at(q, j + w) == Some(0x2cu8) && itemss(q, j + w + 1))
+                },
+        }
+    }
+}),
+{ reveal(tvs); reveal(arrs); reveal(objs); reveal(pvs); reveal(itemss); reveal(memberss); }
+pub proof fn lemma_memberss(q: Seq<Option<u8>>, i: int)
+    ensures memberss(q, i) == ({
+    if i < 0 || i > q.len() { false } else {
+        pvs(from(q, i)) && match pv(from(q, i)) {
+            Some((JsonValue::String(key), n)) =>
+                n > 0 && i + n <= q.len() && {
+                    let j = i + n;
+                    let w = ws_run(from(q, j)) as int;
+                    at(q, j + w) == Some(0x3au8) && {
+                        let c = j + w + 1;
+                        pvs(from(q, c)) && match pv(from(q, c)) {
+                            None => false,
+                            Some((v, n2)) =>
+                                n2 > 0 && c + n2 <= q.len() && {
+                                    let j2 = c + n2;
+                                    let w3 = ws_run(from(q, j2)) as int;
+                                    at(q, j2 + w3) == Some(0x7du8) || (at(q, j2 + w3) == Some(0x2cu8) && memberss(q, j2 + w3 + 1))
+                                },
+                        }
+                    }
+                },
+            _ => false,
+        }
+    }
+}),
+{ reveal(tvs); reveal(arrs); reveal(objs); reveal(pvs); reveal(itemss); reveal(memberss); }
